@@ -34,7 +34,7 @@ import core
 READY = True
 MANIFEST = dict(
     technique='Lean 4 theorems over a transcribed model of match_scope / matches_filter / the message handlers (characterisation of RFC 3986 matching at byte level, induction over message lists for the remote table, the C15 id-window for duplicates); translator for the MatchBy constants; differential correspondence incl. real SOAP datagrams through _run_q_read',
-    text='Theorems (Properties/C14.lean): match_rfc3986_iff (for URIs urlsplit accepts: match <=> scheme and authority equal ignoring ASCII case and the percent-decoded segments of the probe scope are a segment-wise prefix of those of the service scope; query/fragment ignored), match_rfc3986_defined, match_strcmp_iff, match_unknown_rule, generated_rule_kinds / generated_rules_standard (the MatchBy constants of the running code are the WS-Discovery 1.1 URIs), match_refl, match_trans, encoded_slash_is_not_a_separator; probe_answer_exact / probe_answer_mem / probe_answer_defined (answered services = published services offering all types and matching all scopes, in publication order), resolve_only_published with published_get / cleared_get; remote_table_exact, remote_table_max_version, remote_table_present_iff, remote_table_content, empty_epr_never_recorded (for every message sequence the entry of an endpoint is absent iff nothing was announced since its last Bye, else carries the maximal metadata version and the merged content of the announcements with that version); duplicate_ignored and acted_on_once_within_window (the id window of property C15 in front of the dispatcher: a remembered id changes nothing, and an id acted on stays remembered for the next maxlen-1 datagrams).',
+    text='Theorems (Properties/C14.lean): match_rfc3986_iff (for URIs urlsplit accepts: match <=> scheme and authority equal ignoring ASCII case and the percent-decoded segments of the probe scope are a segment-wise prefix of those of the service scope; query/fragment ignored), match_rfc3986_defined, match_strcmp_iff, match_unknown_rule, generated_rule_kinds / generated_rules_standard (the MatchBy constants of the running code are the WS-Discovery 1.1 URIs), match_refl, match_trans, encoded_slash_is_not_a_separator; probe_answer_exact / probe_answer_mem / probe_answer_defined (answered services = published services offering all types and matching all scopes, in publication order), resolve_only_published with published_get / cleared_get; remote_table_exact, remote_table_max_version, remote_table_present_iff, remote_table_content, empty_epr_never_recorded (for every message sequence the entry of an endpoint is absent iff nothing was announced since its last Bye, else carries the maximal metadata version and the merged content of the announcements with that version); duplicate_ignored, acted_on_once_within_window and own_message_ignored (the id window of property C15 in front of the dispatcher, shared by inbound datagrams and own queued messages in any interleaving: a remembered id changes nothing, an id acted on or an own id stays remembered while fewer than maxlen further ids are registered).',
     note='Trusted: Lean kernel; harness; urlsplit library checks (ipaddress / NFKC) are a parameter of the model; str.lower() is modelled for ASCII only (non-ASCII cased letters in scheme/authority are excluded from the generator); lxml parsing/validation of the datagrams is outside the model (messages are generated schema-valid).',
     ref='5 C14')
 DRIVERS = ['drv_c14']
@@ -174,7 +174,14 @@ class ImplNode:
         self.wsd = wsdimpl.WSDiscovery('127.0.0.1', logger=logging.getLogger('verif.c14.wsd'))
         self.th = _mk_thread(self.wsd)
         self.outbound = []
-        self.th.add_outbound_message = lambda msg, addr, port, params: self.outbound.append(msg)
+        # the real add_outbound_message registers the own message id in the known-id window and fills the send queue
+        self.th._send_queue = queue.PriorityQueue()
+        real_add = self.th.add_outbound_message
+
+        def add_outbound(msg, addr, port, params):
+            self.outbound.append(msg)
+            real_add(msg, addr, port, params)
+        self.th.add_outbound_message = add_outbound
         self.wsd._networking_thread = self.th
         self.wsd._server_started = True
         self.handled = []   # (action, exception class or None) of every handle_received_message call
@@ -188,6 +195,10 @@ class ImplNode:
                 raise
             self.handled.append((received_message.action, None))
         self.wsd.handle_received_message = wrapped
+
+    def own_ids(self, since):
+        """message ids of the own messages queued since outbound index `since`, in order"""
+        return [m.p_msg.header_info_block.MessageID for m in self.outbound[since:]]
 
     # -- local services
     def publish(self, epr, types, scopes, xaddrs, inst) -> str:
@@ -478,19 +489,35 @@ def rule_kind(rule):
 
 # ---------------------------------------------------------------------------------------------- oracle for sessions
 class DupBook:
-    """independent book-keeping for the duplicate oracle: an id that was acted on is remembered at least until `maxlen`
-    further datagrams have arrived (each datagram pushes at most one id onto the window)"""
+    """independent book-keeping for the duplicate oracle: the node remembers the last `maxlen` message ids *in order of
+    registration* (ids of datagrams it acted on and ids of its own queued messages), whatever end of whatever container
+    the code uses"""
 
     def __init__(self, maxlen):
-        self.maxlen, self.n, self.last_dispatch = maxlen, 0, {}
+        self.maxlen, self.registered = maxlen, []
 
     def must_skip(self, mid) -> bool:
-        return mid in self.last_dispatch and (self.maxlen is None or self.n - self.last_dispatch[mid] - 1 < self.maxlen)
+        recent = self.registered if self.maxlen is None else self.registered[-self.maxlen:] if self.maxlen else []
+        return mid in recent
 
     def record(self, mid, impl):
+        """an inbound datagram: acted on => its id is registered"""
         if impl != 'skip':
-            self.last_dispatch[mid] = self.n
-        self.n += 1
+            self.registered.append(mid)
+
+    def own(self, ids):
+        self.registered.extend(ids)
+
+
+def emit_own(node, since, dup, lines, expect, cases):
+    """tell the model (and the duplicate book) which own message ids were registered by the last operation"""
+    ids = node.own_ids(since)
+    dup.own(ids)
+    for i in ids:
+        lines.append('out ' + i)
+        expect.append('ok')
+        cases.append({'op': 'own-message-id', 'id': i})
+    return ids
 
 
 class Book:
@@ -524,6 +551,7 @@ def run_session(ctx, rng, idx, lines, expect, cases):
     for step in range(n_ops):
         k = rng.random()
         via_dg = rng.random() < 0.6
+        n_out = len(node.outbound)
         if k < 0.14:
             epr = rng.choice(EPRS[:4])
             types = rng.sample(TYPE_POOL, rng.randrange(0, 4))
@@ -544,7 +572,10 @@ def run_session(ctx, rng, idx, lines, expect, cases):
             op = {'op': 'clear', 'epr': epr}
         else:
             msg = rand_message(rng, uris, book)
-            if mids and rng.random() < 0.25:
+            own = node.own_ids(0)
+            if own and rng.random() < 0.08:
+                mid = rng.choice(own[-3:])   # an own message looped back by multicast
+            elif mids and rng.random() < 0.25:
                 mid = rng.choice(mids[-5:] if rng.random() < 0.8 else mids)   # duplicate id
             else:
                 mid = f'urn:uuid:{idx}-{step}'
@@ -578,6 +609,7 @@ def run_session(ctx, rng, idx, lines, expect, cases):
         lines.append(line)
         expect.append(impl)
         cases.append({'session': idx, 'step': step, **op})
+        emit_own(node, n_out, dup, lines, expect, cases)
         ctx.count('op:' + line.split(' ')[0] + ('+' + line.split(' ')[2] if line.startswith('dg ') else ''))
         ctx.count('impl:' + ' '.join(impl.split(' ')[:2] if impl.startswith('err') else impl.split(' ')[:1]))
         if rng.random() < 0.3 or step == n_ops - 1:
@@ -796,32 +828,61 @@ def run(ctx):
 
 
 def window_session(ctx, rng, lines, expect, cases):
+    """overflow the real id window with interleaved inbound datagrams and own (outbound) messages, then repeat the most
+    recent inbound id and loop back the most recent own id; afterwards a pure inbound stream"""
     node = ImplNode()
     maxlen = node.th._known_message_ids.maxlen
+    dup = DupBook(maxlen)
     lines.append('reset')
     expect.append('ok')
     cases.append({'op': 'reset'})
-    n = maxlen + rng.randint(5, 30)
-    uris = [rand_uri(rng)]
-    seq = [f'urn:uuid:w{i}' for i in range(n)]
-    seq += [seq[0], seq[1], seq[-1], seq[-maxlen], seq[-maxlen - 1], seq[n // 2]]
-    dup = DupBook(maxlen)
-    for j, mid in enumerate(seq):
-        msg = {'kind': 'hello', 'app': True, 'inst': 1, 'svc': {**rand_svc(rng, uris, epr='urn:uuid:w'), 'mv': j + 1}}
-        data = ImplNode.build(msg, mid)
-        was_known = dup.must_skip(mid)
-        impl = node.deliver(data, True)
-        dup.record(mid, impl)
-        if was_known and impl != 'skip':
-            ctx.fail('duplicate-acted-on', f'datagram with remembered message id {mid} was dispatched', {'window': seq[:j + 1]})
-        lines.append(f'dg {mid} ' + msg_line(msg))
+    ops = []
+    ttype = TYPE_POOL[0]
+
+    def step(op, line_of):
+        n_out = len(node.outbound)
+        if op['op'] == 'publish':
+            impl = node.publish(op['epr'], op['types'], op['scopes'], op['xaddrs'], op['inst'])
+            line = f"publish {hx(op['epr'])} {enc_types(op['types'])} {enc_scopes(op['scopes'])} {enc_xaddrs(op['xaddrs'])} {op['inst']}"
+        else:
+            data = ImplNode.build(op['msg'], op['mid'])
+            must = dup.must_skip(op['mid'])
+            impl = node.deliver(data, True)
+            dup.record(op['mid'], impl)
+            line = f"dg {op['mid']} " + msg_line(op['msg'])
+            if must and impl != 'skip':
+                ctx.fail('duplicate-acted-on', f"datagram with remembered message id {op['mid']} ({line_of}) was dispatched: {impl}",
+                         {'ops': ops + [op]})
+            ctx.count(f'window:{line_of}:' + impl.split(' ')[0])
+        ops.append(op)
+        lines.append(line)
         expect.append(impl)
-        cases.append({'op': 'window', 'j': j, 'mid': mid})
-        ctx.count('window:' + impl.split(' ')[0])
+        cases.append({'op': 'window', 'what': line_of, 'mid': op.get('mid')})
+        return emit_own(node, n_out, dup, lines, expect, cases)
+
+    step({'op': 'publish', 'epr': 'urn:uuid:w', 'types': [ttype], 'scopes': None, 'xaddrs': ['http://10.0.0.1/x'], 'inst': 5, 'uris': None}, 'publish')
+    n = maxlen // 2 + rng.randint(10, 40)      # every probe registers two ids: its own and the one of the answer
+    probe = {'kind': 'probe', 'types': [ttype], 'scopes': None}
+    last_own = None
+    for i in range(n):
+        own = step({'op': 'datagram', 'mid': f'urn:uuid:p{i}', 'msg': probe}, 'fresh-probe')
+        last_own = own[-1] if own else last_own
+    hello = {'kind': 'hello', 'app': True, 'inst': 1, 'svc': {'epr': 'urn:uuid:r', 'mv': 1, 'inst': 0, 'types': [ttype], 'scopes': None, 'xaddrs': ['http://h/x']}}
+    step({'op': 'datagram', 'mid': f'urn:uuid:p{n - 1}', 'msg': probe}, 'repeat-most-recent-inbound')
+    if last_own:
+        step({'op': 'datagram', 'mid': last_own, 'msg': hello}, 'loop-back-most-recent-own')
+    step({'op': 'datagram', 'mid': f'urn:uuid:p{n - 2}', 'msg': probe}, 'repeat-recent-inbound')
+    step({'op': 'datagram', 'mid': 'urn:uuid:p0', 'msg': probe}, 'repeat-evicted-inbound')
+    # pure inbound stream (Hello with addresses: nothing is sent)
+    m = maxlen + rng.randint(5, 30)
+    seq = [f'urn:uuid:w{i}' for i in range(m)]
+    seq += [seq[0], seq[-1], seq[-maxlen], seq[-maxlen - 1], seq[m // 2]]
+    for j, mid in enumerate(seq):
+        step({'op': 'datagram', 'mid': mid, 'msg': {**hello, 'svc': {**hello['svc'], 'mv': j + 1}}}, 'hello-stream' if j < m else 'hello-repeat')
     lines.append('dump')
     expect.append(node.dump(node.wsd._remote_services))
     cases.append({'op': 'dump'})
-    ctx.case({'window': len(seq)})
+    ctx.case({'window': len(ops)})
 
 
 def search(ctx):
@@ -863,6 +924,7 @@ def replay_ops(ctx, ops) -> bool:
     done = []
     rng = ctx.subrng('replay')
     for op in ops:
+        n_out = len(node.outbound)
         if op['op'] == 'publish':
             node.publish(op['epr'], [tuple(t) for t in op['types']] if op['types'] is not None else None, op['scopes'], op['xaddrs'], op['inst'])
             book.published[op['epr']] = {'types': [tuple(t) for t in op['types'] or []],
@@ -891,6 +953,7 @@ def replay_ops(ctx, ops) -> bool:
                     ctx.fail('duplicate-acted-on', 'duplicate dispatched', {'ops': done + [op]})
             else:
                 session_oracle(ctx, node, book, msg, impl, done + [op], rng)
+        dup.own(node.own_ids(n_out))
         done.append(op)
     table_oracle(ctx, node, book, done)
     for f in ctx.failures:
